@@ -106,19 +106,21 @@ Qed.
 
 (* ---------- the listener records exactly one context per declaration, in order, starting at its first token ---------- *)
 
-(* the declarations that record a context: (key, ordinal of first token), in the order the listener meets them *)
-Fixpoint decls (n : pnode) : list (N * N) :=
+(* the declarations that record a context: key, ordinal of first token, kind, ordinal of the stop token - in the order
+   the listener meets them *)
+Record dcl := { dk_key : N; dk_first : N; dk_kind : N; dk_last : N }.
+Fixpoint decls (n : pnode) : list dcl :=
   match n with
   | P k key first last tlen attrs kids =>
       (if attr_before k then flat_map decls attrs else [])
-      ++ (if has_own k then [(key, first)] else [])
+      ++ (if has_own k then [{| dk_key := key; dk_first := first; dk_kind := k; dk_last := last |}] else [])
       ++ (if attr_after k then flat_map decls attrs else [])
       ++ flat_map decls kids
       ++ (if attr_last k then flat_map decls attrs else [])
   end.
 
 Definition key_start (e : entry) : N * loc := (ekey e, cstart (ectx e)).
-Definition want (toks : list ptok) (d : N * N) : N * loc := (fst d, start_of toks (snd d)).
+Definition want (toks : list ptok) (d : dcl) : N * loc := (dk_key d, start_of toks (dk_first d)).
 
 Section pnode_induction.
   Variable Pn : pnode -> Prop.
@@ -211,7 +213,7 @@ Qed.
 
 Lemma own_tag file toks k key f l t (b1 b2 : bool) le :
   Forall (fun e => cfile (ectx e) = file)
-    (opt_list (if b1 then Some {| ekey := key; ectx := if b2 then set_cend le (own_ctx file toks k f l t) else own_ctx file toks k f l t |} else None)).
+    (opt_list (if b1 then Some {| ekey := key; ekind := k; ectx := if b2 then set_cend le (own_ctx file toks k f l t) else own_ctx file toks k f l t |} else None)).
 Proof.
   destruct b1; cbn [opt_list]; [|apply Forall_nil]. apply Forall_cons; [|apply Forall_nil].
   cbn [ectx]. unfold own_ctx. destruct b2, (k =? kText); reflexivity.
@@ -256,13 +258,14 @@ Qed.
 
 (* ---------- the whole module: one context per declaration, in declaration order, in the declaring file ---------- *)
 
-Record drec := { d_key : N; d_file : N; d_lines : list line; d_dl : N; d_first : N }.
+Record drec := { d_key : N; d_file : N; d_lines : list line; d_dl : N; d_first : N; d_kind : N; d_last : N }.
 
 (* every declaration that records a context, file by file in the order the files are compiled *)
 Fixpoint declarations_from (idx : N) (fs : list file) : list drec :=
   match fs with
   | [] => []
-  | f :: r => map (fun d => {| d_key := fst d; d_file := idx; d_lines := f_lines f; d_dl := f_dl f; d_first := snd d |})
+  | f :: r => map (fun d => {| d_key := dk_key d; d_file := idx; d_lines := f_lines f; d_dl := f_dl f; d_first := dk_first d;
+                               d_kind := dk_kind d; d_last := dk_last d |})
                   (flat_map decls (f_forest f))
               ++ declarations_from (idx + 1) r
   end.
@@ -273,12 +276,11 @@ Definition dtriple (d : drec) : N * N * loc := (d_key d, d_file d, start_of (pos
 
 Lemma triple_tag idx toks : forall es ds,
   Forall (fun e => cfile (ectx e) = idx) es -> map key_start es = map (want toks) ds ->
-  map triple es = map (fun d => (fst d, idx, start_of toks (snd d))) ds.
+  map triple es = map (fun d => (dk_key d, idx, start_of toks (dk_first d))) ds.
 Proof.
   induction es as [|e es IH]; intros [|d ds] HF HM; try discriminate; [reflexivity|].
   inversion HF as [|? ? Hc Hr]; subst. cbn [map] in *. unfold key_start at 1, want at 1 in HM.
   inversion HM as [[Q1 Q2 Q3]].
-  assert (Hh : triple e = (fst d, cfile (ectx e), start_of toks (snd d))) by (unfold triple; rewrite Q1, Q2; reflexivity).
   rewrite (IH ds Hr Q3). unfold triple. rewrite Q1, Q2. reflexivity.
 Qed.
 
@@ -299,8 +301,20 @@ Qed.
 
 (* HEADLINE 1+4 (list form): the contexts of the compiled module are, in order, one per declaration, each in the
    declaring file and starting where sourceCtxHelper.get puts the declaration's first token *)
+(* the listener state spelled out: the helper is replaced for every file, lastEnd is threaded *)
+Lemma compile_st_eq : forall fs idx st, compile_st idx fs st = compile_from idx fs (l_lastEnd st).
+Proof.
+  induction fs as [|f fs IH]; intros idx st; [reflexivity|].
+  cbn [compile_st compile_from switch_file l_sc l_lastEnd h_file].
+  destruct (walk_list idx (positions (f_dl f) (f_lines f)) (f_forest f) (l_lastEnd st)) as [le1 rs].
+  rewrite IH. reflexivity.
+Qed.
+
+Lemma compile_eq fs : compile fs = compile_from 0 fs loc0.
+Proof. unfold compile. rewrite compile_st_eq. reflexivity. Qed.
+
 Theorem compile_triples fs : map triple (compile fs) = map dtriple (declarations fs).
-Proof. apply compile_from_triples. Qed.
+Proof. rewrite compile_eq. apply compile_from_triples. Qed.
 
 Lemma map_eq_Forall2 {A B C} (f : A -> C) (g : B -> C) : forall l l', map f l = map g l' -> Forall2 (fun a b => f a = g b) l l'.
 Proof. induction l as [|a l IH]; intros [|b l'] H; try discriminate; constructor; injection H; auto. Qed.
@@ -608,7 +622,7 @@ End ends.
 Theorem loc_end_ge_start : forall fs, forallb wf_file fs = true ->
   Forall (fun e => loc_le (cstart (ectx e)) (cend (ectx e))) (compile fs).
 Proof.
-  intros fs. unfold compile. generalize 0 loc0. induction fs as [|f fs IH]; intros idx le W; [constructor|].
+  intros fs. rewrite compile_eq. generalize 0 loc0. induction fs as [|f fs IH]; intros idx le W; [constructor|].
   cbn [forallb] in W. apply andb_true_iff in W. destruct W as [W1 W2].
   cbn [compile_from]. pose proof (file_end_ge_start (f_dl f) (f_lines f) idx (f_forest f) le W1) as H.
   destruct (walk_list idx (positions (f_dl f) (f_lines f)) (f_forest f) le) as [le1 rs]. cbn [snd] in H.
@@ -630,3 +644,223 @@ Example flatten_cross_edge : flatten [[1; 2]; [2; 3]; []; []] = [0; 1; 2; 3].
 Proof. reflexivity. Qed.
 Example flatten_back_edge : flatten [[2; 1]; [0; 3]; [1]; [2]] = [0; 2; 1; 3].
 Proof. reflexivity. Qed.
+
+(* ---------- ends that the code computes from the stop token are exact (round 3) ---------- *)
+
+Definition kind_end (e : entry) : N * option loc :=
+  (ekind e, if end_exact_kind (ekind e) then Some (cend (ectx e)) else None).
+Definition want_end (toks : list ptok) (d : dcl) : N * option loc :=
+  (dk_kind d, if end_exact_kind (dk_kind d) then Some (endp toks (dk_last d)) else None).
+
+(* only statements are patched by popScope *)
+Definition stmt_inv (r : wres) : Prop := forall e, w_own r = Some e -> w_stmt r = is_stmt (ekind e).
+
+Lemma exact_not_stmt k : is_stmt k = true -> end_exact_kind k = false.
+Proof. intros H. unfold end_exact_kind. rewrite H. apply andb_false_r. Qed.
+
+Lemma exact_not_text k : end_exact_kind k = true -> (k =? kText) = false.
+Proof.
+  intros H. destruct (N.eqb_spec k kText) as [->|]; [|reflexivity]. vm_compute in H. discriminate.
+Qed.
+
+Lemma exact_not_fix k : end_exact_kind k = true -> fix_end k = false.
+Proof.
+  unfold end_exact_kind. intros H. apply andb_true_iff in H. destruct H as [H _]. apply andb_true_iff in H.
+  destruct H as [_ H]. apply negb_true_iff in H. exact H.
+Qed.
+
+Lemma walk_stmt_inv file toks n le : stmt_inv (snd (walk file toks n le)).
+Proof.
+  destruct n as [k key f l t attrs kids]. cbn [walk].
+  destruct (if attr_before k then thread (walk file toks) attrs le else (le, [])) as [le1 pre].
+  destruct (if attr_after k then thread (walk file toks) attrs _ else _) as [le3 mid].
+  destruct (thread (walk file toks) kids le3) as [le4 krs].
+  destruct (if attr_last k then thread (walk file toks) attrs le4 else (le4, [])) as [le5 post].
+  cbn [snd]. intros e He. cbn [w_own w_stmt] in *. destruct (has_own k); [|discriminate].
+  injection He as <-. reflexivity.
+Qed.
+
+Lemma thread_stmt_inv file toks : forall ns le, Forall stmt_inv (snd (thread (walk file toks) ns le)).
+Proof.
+  induction ns as [|m r IH]; intros le; [constructor|].
+  cbn [thread]. pose proof (walk_stmt_inv file toks m le) as Hm. destruct (walk file toks m le) as [le1 r1].
+  specialize (IH le1). fold (thread (walk file toks)). destruct (thread (walk file toks) r le1) as [le2 rs].
+  cbn [snd] in *. constructor; assumption.
+Qed.
+
+Lemma kind_end_set_own le r : stmt_inv r -> w_stmt r = true -> map kind_end (flat1 (set_own_end le r)) = map kind_end (flat1 r).
+Proof.
+  intros Hi Hs. unfold flat1, set_own_end. cbn [w_pre w_own w_post]. rewrite !map_app. f_equal. f_equal.
+  destruct (w_own r) as [e|] eqn:E; [|reflexivity]. cbn [opt_list map]. f_equal.
+  unfold kind_end. cbn [ekind ectx]. rewrite exact_not_stmt; [reflexivity|]. rewrite <- (Hi e E). exact Hs.
+Qed.
+
+Lemma kind_end_fix_last le : forall rs, Forall stmt_inv rs -> map kind_end (flat (fix_last le rs)) = map kind_end (flat rs).
+Proof.
+  induction rs as [|r rs IH]; intros H; [reflexivity|]. inversion H as [|? ? Hr Hrs]; subst. cbn [fix_last].
+  destruct (existsb w_stmt rs).
+  - rewrite !flat_cons, !map_app, IH by assumption. reflexivity.
+  - destruct (w_stmt r) eqn:Hs; [|reflexivity]. rewrite !flat_cons, !map_app, kind_end_set_own by assumption. reflexivity.
+Qed.
+
+Lemma thread_kind_end file toks : forall ns,
+  Forall (fun m => forall le, map kind_end (flat1 (snd (walk file toks m le))) = map (want_end toks) (decls m)) ns ->
+  forall le, map kind_end (flat (snd (thread (walk file toks) ns le))) = map (want_end toks) (flat_map decls ns).
+Proof.
+  induction 1 as [|m r Hm Hr IH]; intros le; [reflexivity|].
+  cbn [thread]. specialize (Hm le). destruct (walk file toks m le) as [le1 r1]. specialize (IH le1).
+  fold (thread (walk file toks)). destruct (thread (walk file toks) r le1) as [le2 rs].
+  cbn [snd] in *. cbn [flat_map]. rewrite flat_cons, !map_app, Hm, IH. reflexivity.
+Qed.
+
+Theorem walk_kind_end file toks : forall n le,
+  map kind_end (flat1 (snd (walk file toks n le))) = map (want_end toks) (decls n).
+Proof.
+  induction n as [k key f l t attrs kids Ha Hk] using pnode_ind2. intros le.
+  pose proof (thread_kind_end file toks attrs Ha) as TA.
+  pose proof (thread_kind_end file toks kids Hk) as TK.
+  cbn [walk decls].
+  assert (E : forall (b : bool) le, exists le1 pre,
+    (if b then thread (walk file toks) attrs le else (le, [])) = (le1, pre) /\
+    map kind_end (flat pre) = map (want_end toks) (if b then flat_map decls attrs else [])).
+  { intros b le0. destruct b.
+    - specialize (TA le0). destruct (thread (walk file toks) attrs le0) as [x y]. eauto.
+    - eauto. }
+  destruct (E (attr_before k) le) as (le1 & pre & -> & P1).
+  set (own := own_ctx file toks k f l t).
+  set (le2 := if has_own k then cend own else le1).
+  destruct (E (attr_after k) le2) as (le3 & mid & -> & P2).
+  pose proof (thread_stmt_inv file toks kids le3) as SI.
+  specialize (TK le3). destruct (thread (walk file toks) kids le3) as [le4 krs]. cbn [snd] in TK, SI.
+  destruct (E (attr_last k) le4) as (le5 & post & -> & P3).
+  cbn [snd]. unfold flat1. cbn [w_pre w_own w_post]. rewrite !map_app, P1, P2, P3.
+  assert (K : map kind_end (flat (if is_scope k then fix_last le4 krs else krs)) = map (want_end toks) (flat_map decls kids)).
+  { destruct (is_scope k); [rewrite kind_end_fix_last by exact SI|]; exact TK. }
+  rewrite K. f_equal. f_equal.
+  destruct (has_own k); [|reflexivity]. cbn [opt_list map]. unfold kind_end, want_end. cbn [ekind ectx dk_kind dk_last].
+  destruct (end_exact_kind k) eqn:X; [|reflexivity].
+  rewrite (exact_not_fix k X). subst own. unfold own_ctx. rewrite (exact_not_text k X). reflexivity.
+Qed.
+
+Lemma walk_list_kind_end file toks ns le :
+  map kind_end (flat (snd (walk_list file toks ns le))) = map (want_end toks) (flat_map decls ns).
+Proof.
+  unfold walk_list. apply thread_kind_end. apply Forall_forall. intros m _ le0. apply walk_kind_end.
+Qed.
+
+Definition dkind_end (d : drec) : N * option loc :=
+  (d_kind d, if end_exact_kind (d_kind d) then Some (endp (positions (d_dl d) (d_lines d)) (d_last d)) else None).
+
+Lemma compile_from_kind_end : forall fs idx le, map kind_end (compile_from idx fs le) = map dkind_end (declarations_from idx fs).
+Proof.
+  induction fs as [|f fs IH]; intros idx le; [reflexivity|].
+  cbn [compile_from declarations_from].
+  pose proof (walk_list_kind_end idx (positions (f_dl f) (f_lines f)) (f_forest f) le) as K.
+  destruct (walk_list idx (positions (f_dl f) (f_lines f)) (f_forest f) le) as [le1 rs]. cbn [snd] in K.
+  rewrite !map_app, IH, K, !map_map. reflexivity.
+Qed.
+
+(* where a stop token ends, read off the text structure: a real token ends behind its last byte (sourceCtxHelper.get adds
+   the BYTE length of the token text to the CHARACTER column); a DEDENT stands behind the token that triggered it (the
+   next real item of the line) and "is" dl bytes long *)
+Fixpoint rest_line (l : line) (o : nat) : line :=
+  match l, o with [], _ => [] | _ :: r, O => r | _ :: r, Datatypes.S o' => rest_line r o' end.
+Fixpoint rest_at (ls : list line) (o : nat) : line :=
+  match ls with
+  | [] => []
+  | l :: r => if (o <? length l)%nat then rest_line l o else rest_at r (o - length l)
+  end.
+(* width of the token whose arrival made the lexer emit the DEDENT written as item o *)
+Definition trigger_width (ls : list line) (o : N) : N := next_w (rest_at ls (N.to_nat o)).
+
+Lemma nth_pos_line_S dl ln : forall l o col c,
+  locate_line l o col = Some (c, S) ->
+  nth o (pos_line dl ln col l) dtok = {| pline := ln; pcol := c + next_w (rest_line l o); plen := dl |}.
+Proof.
+  induction l as [|it l IH]; intros o col c H; [destruct o; discriminate|].
+  destruct o as [|o].
+  - cbn [locate_line] in H. injection H as <- ->. reflexivity.
+  - cbn [locate_line] in H. destruct it as [w' len'|]; cbn [pos_line nth item_w rest_line] in *.
+    + eapply IH; eassumption.
+    + rewrite N.add_0_r in H. eapply IH; eassumption.
+Qed.
+
+Lemma nth_pos_lines_S dl : forall ls o ln0 ln c,
+  locate ls o ln0 = Some (ln, c, S) ->
+  nth o (pos_lines dl (ln0 + 1) ls) dtok = {| pline := ln + 1; pcol := c + next_w (rest_at ls o); plen := dl |}.
+Proof.
+  induction ls as [|l ls IH]; intros o ln0 ln c H; [discriminate|].
+  cbn [locate] in H. cbn [pos_lines rest_at].
+  destruct (Nat.ltb_spec o (length l)) as [Hlt|Hge].
+  - destruct (locate_line l o 0) as [[c' it]|] eqn:E; [|discriminate].
+    injection H as <- <- ->.
+    rewrite app_nth1 by (rewrite pos_line_length; exact Hlt).
+    eapply nth_pos_line_S; eassumption.
+  - rewrite app_nth2 by (rewrite pos_line_length; exact Hge).
+    rewrite pos_line_length. eapply IH; eassumption.
+Qed.
+
+Lemma endp_written_real dl ls o ln c w len :
+  written_at ls o = Some (ln, c, R w len) -> endp (positions dl ls) o = {| lline := ln; lcol := c + len |}.
+Proof.
+  intros H. unfold endp, tok_at, positions. change 1 with (0 + 1). erewrite nth_pos_lines by exact H.
+  cbn [pline pcol plen]. f_equal. lia.
+Qed.
+
+Lemma endp_written_dedent dl ls o ln c :
+  written_at ls o = Some (ln, c, S) -> endp (positions dl ls) o = {| lline := ln; lcol := c + trigger_width ls o + dl |}.
+Proof.
+  intros H. unfold endp, tok_at, positions, trigger_width. change 1 with (0 + 1). erewrite nth_pos_lines_S by exact H.
+  cbn [pline pcol plen]. f_equal. lia.
+Qed.
+
+(* HEADLINE end_exact: for EVERY text and every declaration forest, the k-th context has the kind of the k-th declaration
+   and, when that kind takes its end from the stop token (field, parameter, event, REST method, annotation, attribute,
+   modifier, array item, import, enum, alias, union, union member, query parameter), the end is exactly where the stop token ends in the
+   text: behind a real token, or - for a rule closed by a DEDENT - behind the token that triggered the DEDENT plus the
+   byte length of the first character of the file *)
+Theorem loc_end_exact fs :
+  Forall2 (fun e d =>
+             ekind e = d_kind d /\
+             (end_exact_kind (d_kind d) = true ->
+                (forall ln c w len, written_at (d_lines d) (d_last d) = Some (ln, c, R w len) ->
+                   cend (ectx e) = {| lline := ln; lcol := c + len |}) /\
+                (forall ln c, written_at (d_lines d) (d_last d) = Some (ln, c, S) ->
+                   cend (ectx e) = {| lline := ln; lcol := c + trigger_width (d_lines d) (d_last d) + d_dl d |})))
+          (compile fs) (declarations fs).
+Proof.
+  assert (H : map kind_end (compile fs) = map dkind_end (declarations fs)) by (rewrite compile_eq; apply compile_from_kind_end).
+  apply map_eq_Forall2 in H. eapply Forall2_weaken; [|exact H]. intros e d E. unfold kind_end, dkind_end in E.
+  injection E as E1 E2. split; [exact E1|]. intros X. rewrite E1, X in E2. injection E2 as E2. split.
+  - intros ln c w len W. rewrite E2. eapply endp_written_real; exact W.
+  - intros ln c W. rewrite E2. apply endp_written_dedent; exact W.
+Qed.
+
+(* ---------- the "..." body of an application: an endpoint of the module that records no location ---------- *)
+
+Fixpoint holders (n : pnode) : list N :=
+  match n with
+  | P k key _ _ _ attrs kids => (if k =? kHolder then [key] else []) ++ flat_map holders attrs ++ flat_map holders kids
+  end.
+Definition file_holders (f : file) : list N := flat_map holders (f_forest f).
+
+(* PARTIAL: whatever is written, an element gets exactly the contexts of the declarations that record one (decl_count);
+   for a key that only "..." bodies carry that is none *)
+Theorem placeholder_no_location fs k :
+  ~ In k (map d_key (declarations fs)) -> contexts_of k (compile fs) = [].
+Proof.
+  intros H. pose proof (decl_count_length fs k) as L.
+  assert (E : filter (fun d => d_key d =? k) (declarations fs) = []).
+  { revert H. generalize (declarations fs). induction l as [|d ds IH]; intros H; [reflexivity|]. cbn [filter]. cbn [map] in H.
+    destruct (N.eqb_spec (d_key d) k) as [Hk|Hn]; [exfalso; apply H; left; exact Hk|].
+    apply IH. intros Hin. apply H. right. exact Hin. }
+  rewrite E in L. destruct (contexts_of k (compile fs)); [reflexivity|discriminate].
+Qed.
+
+(* REFUTED: "every endpoint compiled from the text records where it was declared" - a body-less application `X:` / `...`
+   has the endpoint "..." (written once, at token 2) and no location for it *)
+Definition holder_file : file :=
+  F 1 [ [R 1 1; R 1 1]; [R 4 4; R 3 3]; [] ] [P kApp 1 0 0 0 [] [P kHolder 2 3 3 0 [] []]].
+Theorem placeholder_refuted :
+  exists fs k, In k (flat_map file_holders fs) /\ contexts_of k (compile fs) = [].
+Proof. exists [holder_file], 2. split; [vm_compute; auto|reflexivity]. Qed.
